@@ -498,6 +498,9 @@ class DictLit:
             return self.d[i.s]
         raise Unsupported("dict literal lookup")
 
+    def contains(self, eng, p, item):
+        return z3.BoolVal(isinstance(item, Str) and item.s in self.d)
+
     def call_method(self, eng, p, name, args, kw, node):
         if name == "get" and not self.d:
             return [(p, args[1] if len(args) > 1 else NONE)]
@@ -3401,8 +3404,8 @@ def metadata_block_obligations(tree_w):
     return res
 
 
-def check(ctx, timeout):
-    """every function family runs on its own: a construct the engine / a proof script does not model makes THAT family undecided
+def check(ctx, timeout, families=None):
+    """`families`: run only the families whose name starts with one of these prefixes (None: all).  Every function family runs on its own: a construct the engine / a proof script does not model makes THAT family undecided
     (`<family>.out_of_reach`, UNKNOWN) and leaves the obligations of the other families in place"""
     out, mods = [], {}
 
@@ -3417,6 +3420,9 @@ def check(ctx, timeout):
         return mods[rel]
 
     def fam(name, thunk, register=()):
+        if families is not None and not any(name.startswith(x) for x in families):
+            return
+
         def run():
             for rel, qn in register:
                 fn = mod(rel)[0].get(qn)
